@@ -406,7 +406,10 @@ def _take_axis():
         return {"a": a_id, "axis": ref, "ind": ind, "indexing": "position", "mode": rng.choice(["raise", "clip", "wrap"]), "out": out(w)}
 
     def run(w, s):
-        return w.arr(s["a"]).take_axis(s["ind"], axis=s["axis"], indexing=s["indexing"], mode=s["mode"])
+        a = w.arr(s["a"])
+        if s["mode"] == "wrap" and 0 in a.shape:
+            raise Skip("numpy.take(mode='wrap') never returns on an empty axis")
+        return a.take_axis(s["ind"], axis=s["axis"], indexing=s["indexing"], mode=s["mode"])
     return gen, run
 
 
